@@ -95,7 +95,7 @@ func TestC02Unit(t *testing.T) {
 			_ = n
 		})
 	}
-	nb := c.N(120, 8000)
+	nb := c.N(600, 16000)
 	for k := 0; k < nb; k++ {
 		batch("random", k, map[string]any{"batch": k}, func(b *B) {
 			r := c.Rand("c02rand", k)
@@ -187,7 +187,7 @@ func TestC14Unit(t *testing.T) {
 			}
 		}
 	})
-	nb := c.N(120, 6000)
+	nb := c.N(600, 12000)
 	for k := 0; k < nb; k++ {
 		batch("random", k, map[string]any{"batch": k}, func(b *B) {
 			r := c.Rand("c14r", k)
@@ -368,7 +368,7 @@ func TestC15(t *testing.T) {
 		b.Sig("nb2")
 	})
 	// OPEN byte strings: lattice + random + mutated
-	nb := c.N(80, 4000)
+	nb := c.N(400, 10000)
 	for k := 0; k < nb; k++ {
 		batch("openbytes", k, map[string]any{"batch": k}, func(b *B) {
 			r := c.Rand("c15ob", k)
@@ -400,7 +400,7 @@ func TestC15(t *testing.T) {
 		}
 	})
 	// OPEN values
-	nv := c.N(60, 3000)
+	nv := c.N(300, 8000)
 	for k := 0; k < nv; k++ {
 		batch("openvalues", k, map[string]any{"batch": k}, func(b *B) {
 			r := c.Rand("c15ov", k)
